@@ -165,5 +165,5 @@ def compatible(facts, cell):
 
 
 def show_facts(facts):
-    return "{%s}" % ", ".join("%s=%s" % (d if isinstance(d, str) else "/".join(str(x) for x in d), "|".join(sorted(str(v) for v in vs)))
+    return "{%s}" % ", ".join("%s=%s" % (d if isinstance(d, str) else "/".join(str(x) for x in d[:2]), "|".join(sorted(str(v) for v in vs)))
                               for d, vs in sorted(facts.items(), key=lambda kv: repr(kv[0])))
